@@ -28,6 +28,7 @@ func (d *driver) await(ch <-chan struct{}, what, id string) bool {
 		return true
 	case <-time.After(60 * time.Second):
 		d.rep.Inconclusivef("%s: %s did not happen within 60s", id, what)
+		d.dead = true
 		return false
 	}
 }
@@ -36,6 +37,9 @@ func (d *driver) await(ch <-chan struct{}, what, id string) bool {
 // miss: the cache does not know the accessor), the block is removed and put again, the put is held
 // while its Q4 file is half written; the reader then reads the lower half for the first time.
 func (d *driver) scenarioHeldAccessor(blocks []*block) {
+	if d.dead {
+		return
+	}
 	for _, v := range []struct {
 		name string
 		b    *block
@@ -132,6 +136,9 @@ func (d *driver) scenarioHeldAccessor(blocks []*block) {
 // the same height runs (its loader opens the height link without a store lock); the removal
 // continues. Afterwards the height must be absent for every observer.
 func (d *driver) scenarioStaleServingCache(blocks []*block) {
+	if d.dead {
+		return
+	}
 	for _, b := range []*block{blocks[3], blocks[0]} {
 		id := fmt.Sprintf("scenario/stale-serving-cache/%s", map[bool]string{true: "empty-block", false: "data-block"}[b.Ref.Empty])
 		d.nw++
@@ -170,12 +177,9 @@ func (d *driver) scenarioStaleServingCache(blocks []*block) {
 			loaded = true
 		case <-time.After(4 * time.Second):
 		}
+		// let both go: the loader has the file open already (the serving cache will get its entry), the
+		// removal unlinks; the reader closes its accessor at once (a later cache drop waits for it)
 		close(gR.release)
-		if !d.await(rmDone, "the removal returning", id) {
-			close(gL.release)
-			rec.stop()
-			continue
-		}
 		close(gL.release)
 		var r res
 		select {
@@ -187,6 +191,10 @@ func (d *driver) scenarioStaleServingCache(blocks []*block) {
 		}
 		if r.err == nil {
 			r.acc.Close()
+		}
+		if !d.await(rmDone, "the removal returning", id) {
+			rec.stop()
+			continue
 		}
 		d.rep.Count("scenario_stale_cache", 1)
 		d.rep.Set(id+"/loader_raced", loaded)
@@ -211,6 +219,9 @@ func (d *driver) scenarioStaleServingCache(blocks []*block) {
 // scenarioRePutOverExisting: puts over files that exist run the size validation; afterwards
 // nothing may stay open.
 func (d *driver) scenarioRePutOverExisting(blocks []*block) {
+	if d.dead {
+		return
+	}
 	id := "scenario/reput-over-existing"
 	d.nw++
 	w, err := newWorld(d.root, d.nw, blocks, 0, 0)
